@@ -107,6 +107,7 @@ func runC09(c *core.Ctx, r *core.Reporter) {
 	c09varassert(c, r)
 	c09bounds(c, r)
 	c09kconst(c, r)
+	c09alloc(c, r)
 }
 
 // derivesFromLispInt: v is computed (conversions, +/- constants) from a slip.Fixnum value or an Int64() result.
